@@ -1,0 +1,91 @@
+//go:build verif
+
+// Verification hooks (build tag "verif"): the function builder's pools and
+// operand encodings, for the /verif harness. Add-only.
+
+package compiler
+
+import (
+	"reflect"
+
+	"github.com/open2b/scriggo/internal/runtime"
+)
+
+// VerifPoolAdds applies a history of adds to the named pool of a fresh
+// function builder. It returns the index returned by every add; limit is true
+// if an add panicked with a *LimitExceededError (the history stops there), and
+// other holds any other panic.
+func VerifPoolAdds(pool string, ints []int64, strs []string) (idx []int, limit bool, other any) {
+	fn := newFunction("main", "f", reflect.TypeOf(func() {}), "", nil)
+	fb := newBuilder(fn, "")
+	defer func() {
+		if r := recover(); r != nil {
+			if _, ok := r.(*LimitExceededError); ok {
+				limit = true
+				return
+			}
+			other = r
+		}
+	}()
+	switch pool {
+	case "int":
+		for _, v := range ints {
+			idx = append(idx, fb.makeIntValue(v))
+		}
+	case "float":
+		for _, v := range ints {
+			idx = append(idx, fb.makeFloatValue(float64(v)))
+		}
+	case "string":
+		for _, v := range strs {
+			idx = append(idx, int(uint8(fb.makeStringValue(v))))
+		}
+	case "general":
+		for _, v := range strs {
+			idx = append(idx, int(uint8(fb.makeGeneralValue(reflect.ValueOf(v)))))
+		}
+	case "fieldindex":
+		for _, v := range ints {
+			idx = append(idx, int(uint8(fb.makeFieldIndex([]int{int(v), 1}))))
+		}
+	case "function":
+		for range ints {
+			idx = append(idx, int(uint8(fb.addFunction(&runtime.Function{}))))
+		}
+	case "native":
+		for range ints {
+			idx = append(idx, int(uint8(fb.addNativeFunction(&runtime.NativeFunction{}))))
+		}
+	case "type":
+		for _, v := range ints {
+			idx = append(idx, fb.addType(reflect.ArrayOf(int(v), reflect.TypeOf(0)), false))
+		}
+	case "register":
+		for range ints {
+			idx = append(idx, int(fb.newRegister(reflect.Int)))
+		}
+	default:
+		panic("verif: unknown pool " + pool)
+	}
+	return idx, false, nil
+}
+
+// VerifEncodings runs an operand encoder and its decoder on v (and register type t).
+func VerifEncodings(op string, v int64, t int8) []int64 {
+	switch op {
+	case "int16":
+		a, b := encodeInt16(int16(v))
+		return []int64{int64(a), int64(b), int64(decodeInt16(a, b))}
+	case "uint16":
+		a, b := encodeUint16(uint16(v))
+		return []int64{int64(a), int64(b), int64(decodeUint16(a, b))}
+	case "uint24":
+		a, b, c := encodeUint24(uint32(v))
+		return []int64{int64(a), int64(b), int64(c), int64(decodeUint24(a, b, c))}
+	case "valueindex":
+		a, b := encodeValueIndex(registerType(t), int(v))
+		tt, i := decodeValueIndex(a, b)
+		return []int64{int64(a), int64(b), int64(tt), int64(i)}
+	}
+	panic("verif: unknown encoding " + op)
+}
